@@ -66,21 +66,20 @@ def feature_bucket(src):
 def worker(ctx):
     from vlib.gen import prog
 
-    strat = prog.programs(n_funcs=(1, 3), max_depth=3)
+    K = ctx.params.get("batch", 4)
+    strat = prog.program_batches(k=K, n_funcs=(1, 3), max_depth=3)
+    single = prog.programs(n_funcs=(1, 3), max_depth=3)
     mism = []
-    gen_errors = [0]
     outside = [0]
+    total = [0]
 
-    def body(p):
-        src = p["src"]
-        st, bucket, detail = evaluate(src)
-        labels = list(p["labels"]) + ["status:" + st]
-        ctx.case(src, p["nontrivial"] and st == "ok", labels=labels,
-                 sample={"src": src, "status": st} if st == "ok" and p["nontrivial"] else None)
+    def record(src, labels, nontrivial, st, bucket, detail):
+        total[0] += 1
+        ctx.case(src, nontrivial and st == "ok", labels=list(labels) + ["status:" + st],
+                 sample={"src": src, "status": st} if st == "ok" and nontrivial else None)
         if st == "mismatch":
             mism.append((bucket, src, detail))
         elif st == "generr":
-            gen_errors[0] += 1
             ctx.harness_error(detail + "\n" + src)
         elif st == "outside":
             outside[0] += 1
@@ -89,7 +88,21 @@ def worker(ctx):
         elif st == "unsupported":
             ctx.unsupported_case(bucket)
 
-    n = harness.hyp_search(ctx, strat, body, max_examples=ctx.params["n"], chunk=25, time_frac=0.7)
+    def body(p):
+        # one selene build for the whole batch; only if the batch is not clean are the
+        # programs judged one by one
+        st, bucket, detail = evaluate(p["src"])
+        if st == "ok":
+            for part, labels, nt in zip(p["parts"], p["labels"], p["nontrivial"]):
+                record(part, labels, nt, "ok", None, None)
+            return
+        ctx.label("batch_not_clean:" + st)
+        for part, labels, nt in zip(p["parts"], p["labels"], p["nontrivial"]):
+            st1, b1, d1 = evaluate(part)
+            record(part, labels, nt, st1, b1, d1)
+
+    harness.hyp_search(ctx, strat, body, max_examples=ctx.params["n"], chunk=10, time_frac=0.7)
+    n = total[0]
     if n >= 20 and outside[0] > 0.15 * n:
         ctx.harness_error(f"generator unsound: {outside[0]}/{n} generated programs were not accepted")
     # minimise each mismatch bucket (bounded) and record
@@ -98,20 +111,15 @@ def worker(ctx):
         if bucket in seen:
             continue
         seen.add(bucket)
-        best = None
         if not ctx.out_of_time(0.75):
             def fails(p, _b=bucket):
                 st, b, d = evaluate(p["src"])
                 return (p["src"], d) if st == "mismatch" and b == _b else None
-            r = harness.hyp_shrink(ctx, strat, fails, budget_s=min(60, ctx.budget_s * 0.25), max_examples=150)
+            r = harness.hyp_shrink(ctx, single, fails, budget_s=min(60, ctx.budget_s * 0.25), max_examples=150)
             if r:
-                best = r[1]
-        if best:
-            src, detail = best
-        ctx.violation(f"{bucket}:{feature_bucket(src)}", {"src": src, "bucket": f"{bucket}:{feature_bucket(src)}"}, detail + "\n" + src)
-    for bucket, src, detail in mism:
-        if bucket in seen:
-            continue
+                src, detail = r[1]
+        fb = f"{bucket}:{feature_bucket(src)}"
+        ctx.violation(fb, {"src": src, "bucket": fb}, detail + "\n" + src)
 
 
 SPEC = harness.Spec(
@@ -126,7 +134,7 @@ SPEC = harness.Spec(
                  "programs the checker rejects or that crash the compiler are outside this property (C01/C02/C08 judge them); their rate is bounded (<15%) else exit 2"],
     shards={"quick": 16, "thorough": 16},
     budget_s={"quick": 100, "thorough": 1200},
-    params={"quick": {"n": 40}, "thorough": {"n": 1500}},
+    params={"quick": {"n": 12, "batch": 4}, "thorough": {"n": 400, "batch": 4}},
     min_nontrivial=30,
 )
 
